@@ -65,6 +65,7 @@ class Interp(CoreMixin, ExprMixin, StmtMixin, CallMixin):
         self.watch_locals = set()
         self.kept_locals = {}
         self.watch_calls = set()
+        self.analyse_generators = set()   # qualnames of generator functions whose body is evaluated (yield = effect)
         self.call_log = []
         self.undefined = self.g.mk("Undefined")
         try:
